@@ -9,6 +9,7 @@ import (
 	"hash/fnv"
 	"runtime"
 	"sort"
+	"strings"
 	"sync"
 	"sync/atomic"
 	"time"
@@ -90,10 +91,69 @@ func readerView(ms *yang.Modules) string {
 			if m2, err := ms.FindModuleByNamespace(e.Namespace().Name); err == nil {
 				b.WriteString(m2.Name)
 			}
+			// the absolute path of the node, looked up from the node itself: for nodes below
+			// an rpc or action this walks through the input/output step (existing ones only)
+			if pfx := prefixFor(e, m); e.Parent != nil && pfx != "" {
+				abs := "/" + pfx + ":" + strings.TrimPrefix(p, "/"+root.Name+"/")
+				if got := e.Find(abs); got != e {
+					b.WriteString("FIND-ABS-MISMATCH ")
+				}
+			}
+			if e.RPC != nil {
+				for _, io := range []struct {
+					n string
+					e *yang.Entry
+				}{{"input", e.RPC.Input}, {"output", e.RPC.Output}} {
+					if io.e == nil {
+						continue // looking up an absent one would create it
+					}
+					if got := e.Find(io.n); got != io.e {
+						b.WriteString("FIND-IO-MISMATCH ")
+					}
+					for _, k := range sortedDir(io.e) {
+						if got := e.Find(io.n + "/" + k); got != io.e.Dir[k] {
+							b.WriteString("FIND-IO-CHILD-MISMATCH ")
+						}
+					}
+				}
+			}
 			e.Print(&b)
 		})
 	}
 	return b.String()
+}
+
+// prefixFor returns the prefix under which the file that defines e knows module m ("" if
+// it does not: a node grafted by a grouping or augment of a module that does not import
+// m). Find resolves the first prefix of an absolute path in that file, and records an
+// error on the tree when it cannot - a lookup with an unknown prefix is not the read-only
+// lookup of an existing node the property talks about.
+func prefixFor(e *yang.Entry, m *yang.Module) string {
+	if e.Node == nil {
+		return ""
+	}
+	root := yang.RootNode(e.Node)
+	if root == nil {
+		return ""
+	}
+	if root == m || (root.BelongsTo != nil && root.BelongsTo.Name == m.Name) {
+		return root.GetPrefix()
+	}
+	for _, im := range root.Import {
+		if im.Module == m && im.Prefix != nil {
+			return im.Prefix.Name
+		}
+	}
+	return ""
+}
+
+func sortedDir(e *yang.Entry) []string {
+	ks := make([]string, 0, len(e.Dir))
+	for k := range e.Dir {
+		ks = append(ks, k)
+	}
+	sort.Strings(ks)
+	return ks
 }
 
 func sortedKeys(m map[string]*yang.Module) []string {
@@ -329,4 +389,59 @@ func stableSequentially(sets []set, want []string, s *job.Sink) bool {
 		}
 	}
 	return true
+}
+
+// ColdStart: every shard is a fresh process whose very first use of the library is a
+// burst of concurrent loads (whatever the package builds lazily on first use is built
+// by racing goroutines, if it is built lazily at all); the same loads are then repeated
+// one after the other and compared. The race detector watches the burst.
+func ColdStart(j *job.Job, s *job.Sink) {
+	s.Current(int64(j.Shard), map[string]any{"shard": j.Shard, "kind": "cold start"})
+	sets := make([]set, goroutines)
+	for g := range sets {
+		sets[g] = gen(j.Seed, int64(j.Shard)*goroutines+int64(g)+1<<40)
+	}
+	got := make([]string, goroutines)
+	start := make(chan struct{})
+	var wg sync.WaitGroup
+	for g := 0; g < goroutines; g++ {
+		wg.Add(1)
+		go func(g int) {
+			defer wg.Done()
+			defer func() {
+				if rec := recover(); rec != nil {
+					got[g] = fmt.Sprint("PANIC ", rec)
+				}
+			}()
+			<-start
+			ms, errs := load(sets[g])
+			got[g] = dump.Set(ms, errs, true)
+		}(g)
+	}
+	close(start)
+	wg.Wait()
+	bad := 0
+	first := ""
+	for g := range sets {
+		ms, errs := load(sets[g])
+		if want := dump.Set(ms, errs, true); want != got[g] {
+			bad++
+			if first == "" {
+				a, b := strings.Split(got[g], "\n"), strings.Split(want, "\n")
+				for i := 0; i < len(a) && i < len(b); i++ {
+					if a[i] != b[i] {
+						first = fmt.Sprintf("concurrent %q, sequential %q", a[i], b[i])
+						break
+					}
+				}
+			}
+		}
+	}
+	s.Count("cold_start_processes", 1)
+	s.Count("cold_start_pipeline_runs", goroutines)
+	s.Count("rounds", 1)
+	s.Count("nontrivial", 1)
+	if bad > 0 {
+		s.Violation(int64(j.Shard), j.CaseID(int64(j.Shard)), "C19.result", "cold-start-result-differs", fmt.Sprintf("%d of %d first loads of a fresh process, run concurrently, differ from the same loads repeated sequentially: %s", bad, goroutines, first), sets[0], nil)
+	}
 }
